@@ -249,7 +249,7 @@ func VxC17_Tamper() {
 	vxAssert(c.Set("k", v) == nil, "C17/set-failed")
 	two := vxChoice("other-entry", 2) == 1
 	if two {
-		vxAssert(c.Set("j", w) == nil, "C17/set-failed")
+		vxAssert(c.Set("kj", w) == nil, "C17/set-failed")
 	}
 	orig := vxRawRead(c, "k")
 	L := len(orig) // 12 + 2 + 16
@@ -259,7 +259,7 @@ func VxC17_Tamper() {
 		m := []byte(vxStr("m", lens[vxChoice("mlen", len(lens))]))
 		vxAssume(!vxBytesEq(m, orig))
 		if two {
-			vxAssume(!vxBytesEq(m, vxRawRead(c, "j"))) // substitution is the next case
+			vxAssume(!vxBytesEq(m, vxRawRead(c, "kj"))) // substitution is the next case (the other key extends this one: "k", "kj")
 		}
 		vxRawWrite(c, "k", m)
 		got, gerr := c.Get("k")
@@ -272,7 +272,7 @@ func VxC17_Tamper() {
 		vxAssume(nb != m[pos])
 		m[pos] = nb
 		if two {
-			vxAssume(!vxBytesEq(m, vxRawRead(c, "j"))) // substitution is the next case
+			vxAssume(!vxBytesEq(m, vxRawRead(c, "kj"))) // substitution is the next case (the other key extends this one: "k", "kj")
 		}
 		vxRawWrite(c, "k", m)
 		_, gerr := c.Get("k")
@@ -281,7 +281,7 @@ func VxC17_Tamper() {
 		if !two {
 			vxStop()
 		}
-		vxRawWrite(c, "k", vxRawRead(c, "j"))
+		vxRawWrite(c, "k", vxRawRead(c, "kj"))
 		got, gerr := c.Get("k")
 		vxAssert(gerr != nil || vxBytesEq(got, v), "C17/file-of-another-key-accepted")
 	case 3: // another key
